@@ -14,3 +14,24 @@ func ModelEnvconfigProcess(prefix string, spec interface{}) error {
 	}
 	return nil
 }
+
+// LenOf / SwapElems are engine helpers for models that handle slices of any element type
+// (natively they are never called).
+func LenOf(slice interface{}) int              { panic("engine only") }
+func SwapElems(slice interface{}, i, j int)     { panic("engine only") }
+
+// ModelSortSlice models sort.Slice: an insertion sort driven by the caller's less function (any
+// permutation sorted by less is a legal outcome of sort.Slice; callers in inbucket sort by unique
+// keys, for which the result is unique).
+func ModelSortSlice(x interface{}, less func(i, j int) bool) {
+	n := LenOf(x)
+	for i := 1; i < n; i++ {
+		for j := i; j > 0; j-- {
+			if less(j, j-1) {
+				SwapElems(x, j, j-1)
+			} else {
+				break
+			}
+		}
+	}
+}
